@@ -17,7 +17,7 @@ MAX_LOCALS == 1024
 MAX_STACK_HEIGHT == 1024
 MAX_EXPORTS == 100
 MAX_SWITCH == 4096
-MAX_NAME == 512
+MAX_NAME == 100     \* names of exported functions (MAX_FUNC_NAME_SIZE); other names are limited to 512 bytes
 
 Baseline ==
   [nMems |-> 1, memMin |-> 1, memMax |-> 2, nTabs |-> 1, tabMin |-> 4, tabMax |-> -1,
